@@ -243,4 +243,140 @@ mod tests {
             assert_eq!(r0.elapsed(), m0.elapsed());
         });
     }
+
+    // ---------------------------------------------------------------------------------------------
+    // Executor model: the driver below is what turmoil's `Rt` does (init: build a paused runtime and
+    // sleep 1 ms; `with`: spawn_local inside run_until; `tick`: block_on(run_until(sleep(tick)));
+    // `cancel_tasks`: replace runtime and LocalSet). The same pseudo-random timer programs run on the
+    // REAL tokio and on the MODEL; the complete traces (who observed which virtual time, when each
+    // JoinHandle finished, which destructors ran at a crash, the clock after every tick) must agree.
+    macro_rules! driver {
+        ($tk:ident, $name:ident) => {
+            fn $name(seed: u64) -> Vec<String> {
+                use std::cell::RefCell;
+                use std::rc::Rc;
+                use std::time::Duration;
+                struct Guard(Rc<RefCell<Vec<String>>>, u32);
+                impl Drop for Guard {
+                    fn drop(&mut self) {
+                        self.0.borrow_mut().push(format!("drop task{}", self.1));
+                    }
+                }
+                let mut g = Lcg(seed * 104729 + 17);
+                let log: Rc<RefCell<Vec<String>>> = Rc::new(RefCell::new(Vec::new()));
+                let build = || {
+                    let rt = $tk::runtime::Builder::new_current_thread().enable_time().start_paused(true).build().unwrap();
+                    rt.block_on(async { $tk::time::sleep(Duration::from_millis(1)).await });
+                    (rt, $tk::task::LocalSet::new())
+                };
+                let (mut rt, mut local) = build();
+                let start = {
+                    let _g = rt.enter();
+                    $tk::time::Instant::now()
+                };
+                let ntasks = 1 + (g.next() % 3) as u32;
+                let mut handles = Vec::new();
+                for t in 0..ntasks {
+                    let n = (g.next() % 4) as usize;
+                    let sleeps: Vec<u64> = (0..n).map(|_| g.next() % 9).collect();
+                    let nested = g.next() % 4 == 0;
+                    let with_timeout = g.next() % 4 == 0;
+                    let log2 = log.clone();
+                    let fut = async move {
+                        let _guard = Guard(log2.clone(), t);
+                        let t0 = $tk::time::Instant::now();
+                        log2.borrow_mut().push(format!("task{} start at {:?}", t, t0 - start));
+                        for (i, ms) in sleeps.iter().enumerate() {
+                            if with_timeout && i == 0 {
+                                let r = $tk::time::timeout(Duration::from_millis(3), $tk::time::sleep(Duration::from_millis(*ms))).await;
+                                log2.borrow_mut().push(format!("task{} timeout#{} ok={} at {:?}", t, i, r.is_ok(), $tk::time::Instant::now() - start));
+                            } else {
+                                $tk::time::sleep(Duration::from_millis(*ms)).await;
+                                log2.borrow_mut().push(format!("task{} woke#{} at {:?}", t, i, $tk::time::Instant::now() - start));
+                            }
+                            if nested && i == 0 {
+                                let log3 = log2.clone();
+                                let h = $tk::task::spawn_local(async move {
+                                    $tk::time::sleep(Duration::from_millis(2)).await;
+                                    log3.borrow_mut().push(format!("child of task{} at {:?}", t, $tk::time::Instant::now() - start));
+                                    7u32
+                                });
+                                std::mem::drop(h);
+                            }
+                        }
+                        t
+                    };
+                    let h = rt.block_on(async { local.run_until(async { $tk::task::spawn_local(fut) }).await });
+                    handles.push(Some(h));
+                }
+                let tick = 1 + g.next() % 6;
+                let steps = 2 + g.next() % 6;
+                let crash_at = g.next() % (steps + 2);
+                for s in 0..steps {
+                    if s == crash_at {
+                        log.borrow_mut().push("crash".to_string());
+                        for h in handles.iter_mut() {
+                            *h = None;
+                        }
+                        let (rt2, local2) = build();
+                        _ = std::mem::replace(&mut rt, rt2);
+                        std::mem::drop(std::mem::replace(&mut local, local2));
+                        log.borrow_mut().push("crashed".to_string());
+                    }
+                    let before = {
+                        let _g = rt.enter();
+                        $tk::time::Instant::now()
+                    };
+                    rt.block_on(async { local.run_until(async { $tk::time::sleep(Duration::from_millis(tick)).await }).await });
+                    let after = {
+                        let _g = rt.enter();
+                        $tk::time::Instant::now()
+                    };
+                    log.borrow_mut().push(format!("tick {} advanced {:?}", s, after - before));
+                    for (i, slot) in handles.iter_mut().enumerate() {
+                        let fin = slot.as_ref().map(|h| h.is_finished());
+                        if fin == Some(true) {
+                            let h = slot.take().unwrap();
+                            let r = rt.block_on(h);
+                            log.borrow_mut().push(format!("tick {} joined task{} -> {:?}", s, i, r.ok()));
+                        }
+                    }
+                }
+                std::mem::drop(local);
+                std::mem::drop(rt);
+                let out = log.borrow().clone();
+                out
+            }
+        };
+    }
+    driver!(real, run_real);
+    driver!(model, run_model);
+
+    #[test]
+    fn executor_model_matches_real_paused_runtime() {
+        for seed in 0..3000u64 {
+            let a = run_real(seed);
+            let b = run_model(seed);
+            // Tasks whose timers fire at the SAME virtual instant are polled in timer-wheel order by
+            // tokio and in spawn order by the model; that order is not part of the modelled contract.
+            // Compared: (1) per tick, the multiset of events; (2) per source, the exact sequence.
+            let segments = |t: &Vec<String>| {
+                let mut out: Vec<Vec<String>> = vec![Vec::new()];
+                for l in t {
+                    out.last_mut().unwrap().push(l.clone());
+                    if l.starts_with("tick ") && l.contains("advanced") {
+                        out.last_mut().unwrap().sort();
+                        out.push(Vec::new());
+                    }
+                }
+                out.last_mut().unwrap().sort();
+                out
+            };
+            assert_eq!(segments(&a), segments(&b), "per-tick events differ for seed {seed}\n{a:#?}\n{b:#?}");
+            let project = |t: &Vec<String>, key: &str| t.iter().filter(|l| l.starts_with(&format!("{key} "))).cloned().collect::<Vec<_>>();
+            for key in ["task0", "task1", "task2", "child of task0", "child of task1", "child of task2", "tick"] {
+                assert_eq!(project(&a, key), project(&b, key), "sequence of {key} differs for seed {seed}");
+            }
+        }
+    }
 }
